@@ -340,7 +340,8 @@ def forbes_rules(run, db):
 
 def qloop_rules(run, db, rule='C07.qloop'):
     """Q2d and Qbfs: base cases, initial values, one recurrence step and the rotation of the carried pair, by induction."""
-    from .common import snapshot_loops, loop_as_function, loop_carried
+    from .common import snapshot_loops, loop_as_function, loop_carried, sweep_step, post_atoms
+    from ..core.interp import Frame
     Q = 'prysm.polynomials.qpoly.'
     ATOMS = ('g_qbfs', 'h_qbfs', 'f_qbfs', 'g_q2d', 'f_q2d', 'abc_q2d', 'Qbfs', 'sign')
 
@@ -412,48 +413,36 @@ def qloop_rules(run, db, rule='C07.qloop'):
         sn = mine[0]
         env = sn.env
         want0 = (P2, P3, Q3, 4) if m1 else (P0, P1, Q1, 2)
-        g0 = [dom.rat(env.get(k)) for k in ('Pnm2', 'Pnm1', 'Qnm1', 'min_n')]
-        ok0 = all(a is not None for a in g0) and g0[0] == want0[0] and g0[1] == want0[1] and g0[2] == want0[2] and g0[3] == C(want0[3])
-        run.check(ok0, rule, f.qual, 'initial values (%s)' % label, 'the recurrence starts from (P_%d, P_%d, Q_%d) at order %d' % (want0[3] - 2, want0[3] - 1, want0[3] - 1, want0[3]),
-                  'Q2d (%s) enters its loop with Pnm2=%s, Pnm1=%s, Qnm1=%s, first order %s' % tuple([label] + [a.key() if a is not None else '?' for a in g0]), f.loc(sn.node))
-        rng = [dom.rat(it.ev(a, type('F', (), {'env': env, 'parent': None, 'module': f.module, 'fi': f})())) if False else None for a in []]
+        # the roles of the carried names are read off their entry values; the sweep range is evaluated, not spelled
+        nn = Rat(R.atom('nn'))
+        sw = sweep_step(it, dom, f, sn, {'P2': want0[0], 'P1': want0[1], 'Q1': want0[2]})
         it_args = sn.node.iter.args if isinstance(sn.node.iter, ast.Call) and ast.unparse(sn.node.iter.func) == 'range' else None
-        okr = it_args is not None and len(it_args) == 2 and ast.unparse(it_args[0]) == 'min_n' and ast.unparse(it_args[1]).replace(' ', '') == 'n+1'
+        fr0 = Frame(f, f.module, dict(env))
+        rng = [dom.rat(it.ev(a, fr0)) for a in it_args] if it_args is not None and len(it_args) == 2 else None
+        ok0 = all(v is not None for v in sw.roles.values()) and set(sw.carried) == set(sw.roles.values()) and rng is not None and rng[0] is not None and rng[0] == C(want0[3])
+        run.check(ok0, rule, f.qual, 'initial values (%s)' % label, 'the recurrence starts from (P_%d, P_%d, Q_%d) at order %d' % (want0[3] - 2, want0[3] - 1, want0[3] - 1, want0[3]),
+                  'Q2d (%s) enters its loop with %s, first order %s; expected the carried values (%s, %s, %s) and first order %d' %
+                  (label, ', '.join('%s=%s' % (k, v.key() if v is not None else '?') for k, v in sorted(sw.entry.items())), rng[0].key() if rng and rng[0] is not None else '?',
+                   want0[0].key(), want0[1].key(), want0[2].key(), want0[3]), f.loc(sn.node))
+        okr = rng is not None and rng[1] is not None and rng[1] == n_ + 1
         run.check(okr, rule, f.qual, 'sweep range (%s)' % label, 'the sweep runs from the first order to n inclusive', 'Q2d sweeps %s' % ast.unparse(sn.node.iter), f.loc(sn.node))
-        run.check(got == Rat(R.atom('post_Qn')) * pref, rule, f.qual, 'result (%s)' % label, 'the last Q computed by the sweep times u^|m| %s(|m| t) is returned' % ('sin' if neg else 'cos'),
-                  'Q2d returns %s after the sweep' % got.key(), f.loc())
         kinds.add('loop%s%s' % (neg, m1))
-        # one step
-        carried = loop_carried(sn.node)
-        run.check(carried == {'Pnm2', 'Pnm1', 'Qnm1'}, rule, f.qual, 'carried state (%s)' % label, 'the sweep carries (P_(n-2), P_(n-1), Q_(n-1))', 'Q2d sweep carries %s' % sorted(carried), f.loc(sn.node))
-        step, params = loop_as_function(f, sn.node, ['Pnm2', 'Pnm1', 'Qnm1', 'Qn'])
-        it2, dom2 = mk()
-        R2 = dom2.R
-        kw = {}
-        for pn in params:
-            if pn in ('Pnm2', 'Pnm1', 'Qnm1', 'nn'):
-                kw[pn] = dom2.sym('in_' + pn if pn != 'nn' else 'nn')
-            elif pn == 'Qn':
-                kw[pn] = Const(None)
-            elif pn == 'm':
-                kw[pn] = dom2.sym('M')
-            elif pn == 'x':
-                kw[pn] = dom2.sym('x')
-            else:
-                kw[pn] = dom2.sym(pn)
-        rs = [q for q in it2.run(step, kwargs=lambda: dict(kw)) if q.outcome == 'return']
-        if len(rs) != 1:
-            raise AnalysisError('Q2d: the recurrence step has %d paths' % len(rs))
-        outv = rs[0].value.items
-        a2 = lambda name, *a: Rat(R2.func(name, list(a)))
-        nn, M2, x2 = Rat(R2.atom('nn')), Rat(R2.atom('M')), Rat(R2.atom('x'))
-        iP2, iP1, iQ1 = [Rat(R2.atom('in_' + k)) for k in ('Pnm2', 'Pnm1', 'Qnm1')]
-        Pn = (a2('A_q2d', nn - 1, M2) + a2('B_q2d', nn - 1, M2) * x2) * iP1 - a2('C_q2d', nn - 1, M2) * iP2
-        Qn = (Pn - a2('g_q2d', nn - 1, M2) * iQ1) / a2('f_q2d', nn, M2)
-        gotv = [dom2.rat(v) for v in outv]
-        oks = all(v is not None for v in gotv) and gotv[0] == iP1 and gotv[1] == Pn and gotv[2] == Qn and gotv[3] == Qn
+        if not ok0:
+            continue
+        iP2, iP1, iQ1 = [Rat(R.atom('in_' + k)) for k in ('P2', 'P1', 'Q1')]
+        Mx = M
+        Pn = (at('A_q2d', nn - 1, Mx) + at('B_q2d', nn - 1, Mx) * x) * iP1 - at('C_q2d', nn - 1, Mx) * iP2
+        Qn = (Pn - at('g_q2d', nn - 1, Mx) * iQ1) / at('f_q2d', nn, Mx)
+        gotv = [dom.rat(sw.out(k)) if sw.out(k) is not None else None for k in ('P2', 'P1', 'Q1')]
+        oks = all(v is not None for v in gotv) and gotv[0] == iP1 and gotv[1] == Pn and gotv[2] == Qn
         run.check(oks, rule, f.qual, 'step (%s)' % label, 'P_n = (A_(n-1) + B_(n-1) x) P_(n-1) - C_(n-1) P_(n-2); Q_n = (P_n - g_(n-1) Q_(n-1))/f_n; the pair is rotated',
-                  'Q2d recurrence step gives (Pnm2, Pnm1, Qnm1, Qn) = (%s), expected (P_(n-1), P_n, Q_n, Q_n) with P_n = %s, Q_n = %s' % (', '.join(v.key() if v is not None else '?' for v in gotv), Pn.key(), Qn.key()), f.loc(sn.node))
+                  'Q2d recurrence step gives (P_(n-2), P_(n-1), Q_(n-1)) <- (%s), expected (P_(n-1), P_n, Q_n) with P_n = %s, Q_n = %s' % (', '.join(v.key() if v is not None else '?' for v in gotv), Pn.key(), Qn.key()), f.loc(sn.node))
+        # what is returned after the sweep is the Q of the last order
+        lastq = set(sw.fresh_equal(dom, Qn))
+        posts = post_atoms(got)
+        okres = len(posts) == 1 and posts <= lastq and got == Rat(R.atom('post_' + sorted(posts)[0])) * pref
+        run.check(okres, rule, f.qual, 'result (%s)' % label, 'the last Q computed by the sweep times u^|m| %s(|m| t) is returned' % ('sin' if neg else 'cos'),
+                  'Q2d returns %s after the sweep (the names holding Q_n after an iteration are %s)' % (got.key(), sorted(lastq)), f.loc())
     need = {'m0'} | {'base%d%s%s' % (k, neg, m1) for k in (0, 1) for neg in (True, False) for m1 in (True, False)} | {'base%d%sTrue' % (k, neg) for k in (2, 3) for neg in (True, False)} \
         | {'loop%s%s' % (neg, m1) for neg in (True, False) for m1 in (True, False)}
     if not need <= kinds:
@@ -485,33 +474,30 @@ def qloop_rules(run, db, rule='C07.qloop'):
                 raise AnalysisError('Qbfs: loop snapshot not found')
             sn = mine[0]
             env = sn.env
-            g0 = [dom.rat(env.get(k)) for k in ('Pnm2', 'Pnm1', 'Qnm2', 'Qnm1')]
             want0 = [C(2), 6 - 8 * rho, C(1), (13 - 16 * rho) / s19]
-            ok0 = all(a is not None and a == b for a, b in zip(g0, want0))
-            run.check(ok0, rule, f.qual, 'initial values', 'P_0 = 2, P_1 = 6 - 8 rho^2, Q_0 = 1, Q_1 = (13 - 16 rho^2)/sqrt(19)', 'Qbfs enters its loop with %s' % [a.key() if a is not None else '?' for a in g0], f.loc(sn.node))
-            okr = isinstance(sn.node.iter, ast.Call) and [ast.unparse(a).replace(' ', '') for a in sn.node.iter.args] == ['2', 'n+1']
+            sw = sweep_step(it, dom, f, sn, dict(zip(('P2', 'P1', 'Q2', 'Q1'), want0)))
+            ok0 = all(v is not None for v in sw.roles.values()) and set(sw.carried) == set(sw.roles.values())
+            run.check(ok0, rule, f.qual, 'initial values', 'P_0 = 2, P_1 = 6 - 8 rho^2, Q_0 = 1, Q_1 = (13 - 16 rho^2)/sqrt(19)',
+                      'Qbfs enters its loop with %s' % ', '.join('%s=%s' % (k, v.key() if v is not None else '?') for k, v in sorted(sw.entry.items())), f.loc(sn.node))
+            fr0 = Frame(f, f.module, dict(env))
+            it_args = sn.node.iter.args if isinstance(sn.node.iter, ast.Call) and ast.unparse(sn.node.iter.func) == 'range' else []
+            rng = [dom.rat(it.ev(a, fr0)) for a in it_args]
+            okr = len(rng) == 2 and all(v is not None for v in rng) and rng[0] == C(2) and rng[1] == Rat(R.atom('n')) + 1
             run.check(okr, rule, f.qual, 'sweep range', 'the sweep runs from 2 to n inclusive', 'Qbfs sweeps %s' % ast.unparse(sn.node.iter), f.loc(sn.node))
-            run.check(got == Rat(R.atom('post_Qn')) * cQ, rule, f.qual, 'result', 'the last Q of the sweep times rho^2(1-rho^2) is returned', 'Qbfs returns %s' % got.key(), f.loc())
-            carried = loop_carried(sn.node)
-            run.check(carried == {'Pnm2', 'Pnm1', 'Qnm2', 'Qnm1'}, rule, f.qual, 'carried state', 'the sweep carries (P_(n-2), P_(n-1), Q_(n-2), Q_(n-1))', 'Qbfs sweep carries %s' % sorted(carried), f.loc(sn.node))
-            step, params = loop_as_function(f, sn.node, ['Pnm2', 'Pnm1', 'Qnm2', 'Qnm1', 'Qn'])
-            it2, dom2 = mk()
-            R2 = dom2.R
-            kw = {pn: (Const(None) if pn == 'Qn' else dom2.sym(('in_' + pn) if pn in ('Pnm2', 'Pnm1', 'Qnm2', 'Qnm1') else pn)) for pn in params}
-            rs = [q for q in it2.run(step, kwargs=lambda: dict(kw)) if q.outcome == 'return']
-            if len(rs) != 1:
-                raise AnalysisError('Qbfs: the recurrence step has %d paths' % len(rs))
-            a2 = lambda name, *a: Rat(R2.func(name, list(a)))
-            nn, c2 = Rat(R2.atom('nn')), Rat(R2.atom('c'))
-            iP2, iP1, iQ2, iQ1 = [Rat(R2.atom('in_' + k)) for k in ('Pnm2', 'Pnm1', 'Qnm2', 'Qnm1')]
-            Pn = c2 * iP1 - iP2
-            Qn = (Pn - a2('g_qbfs', nn - 1) * iQ1 - a2('h_qbfs', nn - 2) * iQ2) / a2('f_qbfs', nn)
-            gotv = [dom2.rat(v) for v in rs[0].value.items]
-            oks = all(v is not None for v in gotv) and gotv[0] == iP1 and gotv[1] == Pn and gotv[2] == iQ1 and gotv[3] == Qn and gotv[4] == Qn
-            run.check(oks, rule, f.qual, 'step', 'P_n = (2 - 4 rho^2) P_(n-1) - P_(n-2); Q_n = (P_n - g_(n-1) Q_(n-1) - h_(n-2) Q_(n-2))/f_n; both pairs are rotated',
-                      'Qbfs recurrence step gives %s' % [v.key() if v is not None else '?' for v in gotv], f.loc(sn.node))
-            cdef = dom.rat(env.get('c'))
-            run.check(cdef is not None and cdef == 2 - 4 * rho, rule, f.qual, 'c', 'c = 2 - 4 rho^2', 'Qbfs uses c = %s' % (cdef.key() if cdef is not None else '?'), f.loc())
+            if ok0:
+                nn = Rat(R.atom('nn'))
+                iP2, iP1, iQ2, iQ1 = [Rat(R.atom('in_' + k)) for k in ('P2', 'P1', 'Q2', 'Q1')]
+                Pn = (2 - 4 * rho) * iP1 - iP2
+                Qn = (Pn - at('g_qbfs', nn - 1) * iQ1 - at('h_qbfs', nn - 2) * iQ2) / at('f_qbfs', nn)
+                gotv = [dom.rat(sw.out(k)) if sw.out(k) is not None else None for k in ('P2', 'P1', 'Q2', 'Q1')]
+                oks = all(v is not None for v in gotv) and gotv[0] == iP1 and gotv[1] == Pn and gotv[2] == iQ1 and gotv[3] == Qn
+                run.check(oks, rule, f.qual, 'step', 'P_n = (2 - 4 rho^2) P_(n-1) - P_(n-2); Q_n = (P_n - g_(n-1) Q_(n-1) - h_(n-2) Q_(n-2))/f_n; both pairs are rotated',
+                          'Qbfs recurrence step gives %s' % [v.key() if v is not None else '?' for v in gotv], f.loc(sn.node))
+                lastq = set(sw.fresh_equal(dom, Qn))
+                posts = post_atoms(got)
+                okres = len(posts) == 1 and posts <= lastq and got == Rat(R.atom('post_' + sorted(posts)[0])) * cQ
+                run.check(okres, rule, f.qual, 'result', 'the last Q of the sweep times rho^2(1-rho^2) is returned',
+                          'Qbfs returns %s (the names holding Q_n after an iteration are %s)' % (got.key(), sorted(lastq)), f.loc())
             kinds.add(2)
     if kinds != {0, 1, 2}:
         raise AnalysisError('Qbfs: expected the cases n = 0, 1, general')
